@@ -1,6 +1,6 @@
 /-
   C20 — executable model of `gql-client-gen` (cmd/gql-client-gen/main.go:35-305 + Generate, *after*
-  the fixes repo-patches/C20/01..03) and of `encoding/json` decoding into the generated types.
+  the fixes repo-patches/C20/01..05) and of `encoding/json` decoding into the generated types.
 
   What is modelled, line by line:
     * `fieldName`                      main.go:35-41
@@ -55,7 +55,7 @@ def splitOn (sep : Nat) : Name → List Name
       | [] => [[c]]
       | p :: ps => (c :: p) :: ps
 
-/-- main.go:80-84: `t.Name + join(map (Title ∘ ToLower) (Split k "_"))`. -/
+/-- `t.Name + join(map (Title ∘ ToLower) (Split k "_"))`. -/
 def constName (enumName value : Name) : Name :=
   enumName ++ ((splitOn 95 value).map (fun p => title (lowerAll p))).flatten
 
@@ -72,6 +72,27 @@ def nameLt : Name → Name → Bool
   | [], _ :: _ => true
   | _ :: _, [] => false
   | a :: as, b :: bs => if a < b then true else if b < a then false else nameLt as bs
+
+def insertName (n : Name) : List Name → List Name
+  | [] => [n]
+  | m :: ms => if nameLt n m then n :: m :: ms else m :: insertName n ms
+
+/-- `sort.Strings`. -/
+def sortNames : List Name → List Name
+  | [] => []
+  | n :: ns => insertName n (sortNames ns)
+
+/-- The constants of an enum (after fix 05), values in sorted order: the camel-cased name, or — when
+    that identifier is already used by the type or an earlier constant — `Name_<value>`. -/
+def enumConstsAux (enumName : Name) : List Name → List Name → List (Name × Name)
+  | [], _ => []
+  | v :: vs, used =>
+    let c := constName enumName v
+    let c' := if used.contains c then enumName ++ [95] ++ v else c
+    (c', v) :: enumConstsAux enumName vs (c' :: used)
+
+def enumConsts (enumName : Name) (values : List Name) : List (Name × Name) :=
+  enumConstsAux enumName (sortNames values) [enumName]
 
 -- literals ("sel", "Data", "Fragment", "__typename", the built-in scalar names)
 def n_sel : Name := [115, 101, 108]
@@ -303,7 +324,7 @@ def genAt (S : Schema) (n : Name) (nonNull : Bool) (tnField : Option Name) (st :
       let fs := sortFields (fields.map toGoField)
       if conds.isEmpty then .ok (ptrUnless nonNull (.struct fs), st1)
       else
-        let name := n_sel ++ td.name ++ natDigits st1.count
+        let name := n_sel ++ td.name ++ [95] ++ natDigits st1.count   -- fix 04: "sel" + T + "_" + counter
         let acts := actionsOf S td (tnField.getD []) conds
         .ok (ptrUnless nonNull (.named name),
              { st1 with decls := st1.decls ++ [.sel name fs acts], count := st1.count + 1 })
@@ -313,7 +334,7 @@ def genAt (S : Schema) (n : Name) (nonNull : Bool) (tnField : Option Name) (st :
   | some (.scalar nm) => .ok (ptrUnless nonNull (scalarTy nm), st)
   | some (.enum nm vs) =>
     let st' := if st.enums.contains nm then st
-      else { st with decls := st.decls ++ [.enum nm (vs.map fun v => (constName nm v, v))], enums := nm :: st.enums }
+      else { st with decls := st.decls ++ [.enum nm (enumConsts nm vs)], enums := nm :: st.enums }
     .ok (ptrUnless nonNull (.named nm), st')
   | some (.object a b c) => composite (.object a b c)
   | some (.iface a b) => composite (.iface a b)
